@@ -327,6 +327,10 @@ def check_c05(w):
         others = [r for r in rs if r['op'] in ('upload_part', 'upload_part_copy',
                                                'complete_multipart_upload')]
         ok = nat_ok(t)
+        if not ok and t['outcome'][0] == 'ok' and not user_overrode(t):
+            # result() returns normally: for the caller the transfer succeeded,
+            # whatever status the done callbacks happened to see
+            ok = True
         if ok and t['outcome'][0] == 'exc' and not user_overrode(t):
             # the FUTURE reports a failure / cancellation (result() raises)
             # although the library's own status says success: for the caller
